@@ -1,5 +1,5 @@
 """Configuration of the C19 check (see DESIGN.md section 6)."""
-PROP = {'counts': {'quick': 120, 'thorough': 5000},
+PROP = {'counts': {'quick': 100, 'thorough': 5000},
  'rule': 'one case = a real EngineFacade behind a real KevoServiceServer on an in-process gRPC server (loopback, '
          'server options as cmd/kevo/server.go passes them for message sizes) driven through the generated client '
          'stubs by a sequential request program (get/put/delete/batch write/scan with every option combination/'
